@@ -44,7 +44,7 @@ def run(chk, tier):
     # "responses to the previous round's probes leave everything unchanged" rests on in_round (R5) *and* on the wrap rule that keeps a restarted
     # window away from the numbers just used: imported so that a narrowed wrap threshold is reported here and not only under C07
     from ..report import run_sub
-    run_sub(chk, 'c07', 'C07.', {'R5'})
+    run_sub(chk, 'c07', 'C07.', {'R5', 'R3'})      # R3: which slot every issue / re-issue writes — an abandoned sequence must end up Skipped, not Awaited
 
     # ---- R1 -------------------------------------------------------------------------------------------
     chk.rule('R1', 'complete_probe is called only by the receive step', floor=1)
